@@ -343,7 +343,8 @@ def sbDemandsAll : Bool :=
 theorem sbDemandsAll_ok : sbDemandsAll = true := by decide +kernel
 
 /-- every registered name resolves; UTF-8 names are exactly the ones `is_utf8` recognises; names of
-the ISO-8859 family resolve to a predicate that also rejects C1 -/
+the ISO-8859 family resolve to a predicate that also rejects C1, the ASCII names to one that
+rejects every byte ≥ 0x80 -/
 def nameTableOk : Bool :=
   Gen.nameTable.all fun e =>
     match getTester e.1 with
@@ -351,7 +352,7 @@ def nameTableOk : Bool :=
     | some .utf8 => isUtf8 e.1
     | some (.single i) =>
       decide (i < Gen.sbPreds.length) && !isUtf8 e.1 &&
-        (List.range 256).all fun c => byteDemands (isoFamily (normalize e.1)) (sbPred i) c
+        (List.range 256).all fun c => nameDemands (normalize e.1) (sbPred i) c
 
 theorem nameTableOk_ok : nameTableOk = true := by decide +kernel
 
